@@ -537,6 +537,11 @@ spifconf_shell_expand(spif_charptr_t s)
               break;
           case '\\':
               D_CONF(("Escape sequence detected.\n"));
+              if (!*(pbuff + 1)) {
+                  /* A backslash which is the last character stands for itself. */
+                  newbuff[j] = *pbuff;
+                  break;
+              }
               if (!in_single || (in_single && *(pbuff + 1) == '\'')) {
                   switch (tolower(*(++pbuff))) {
                     case 'n':
